@@ -1,5 +1,6 @@
 use vstd::prelude::*;
 verus! {
+//@set accept
 //@include frag/std.tpl
 //@include frag/core_modules.tpl
 pub mod common {
@@ -20,6 +21,9 @@ pub mod shims {
     pub mod btree {
 //@include frag/btree_shim.tpl
     }
+    pub mod net2 {
+//@include frag/net2_shim.tpl
+    }
     pub mod tokio {
 //@include frag/tokio_shim.tpl
     }
@@ -29,10 +33,20 @@ pub mod server {
         use crate::decode::DecodeLevel;
 //@item rodbus/src/server/task.rs | ServerCommand
     }
+    pub mod types {
+//@include frag/server_types.tpl
+    }
+    pub mod handler {
+//@include frag/server_handler_min.tpl
+    }
+    pub mod address_filter {
+//@include frag/server_address_filter.tpl
+    }
 }
 pub mod tcp {
     pub mod server {
 //@include frag/tcp_server_tracker.tpl
+//@include frag/tcp_server_task.tpl
     }
 }
 } // verus!
